@@ -39,6 +39,7 @@ package parser
 
 //@ func (*Parser).isType
 //@   inherit
+//@   ensures @C12 iff(result, recv.currentToken.Type == expected)
 //@   ensures @C20 cost() <= 0
 
 // The type-parameter loop of CAST and the mode-word loop of MATCH ... AGAINST: what a pass through the loop costs, over
